@@ -155,6 +155,15 @@ func (tdStoreStream) Generate(rng *rand.Rand, n int, thorough bool) []Case {
 				ops = append(ops, "G:"+entriesDesc(genStoreEntries(rng, gpool, 2)))
 			}
 		}
+		if !hostile && len(users) >= 1 && rng.Intn(5) == 0 {
+			// the application keeps the list a getter returned, sets other users for a while, then hands the kept list
+			// back (nothing else happens in between): the directory then holds the kept users again
+			tmp := genStoreEntries(rng, upool, 3)
+			ops = append(ops, "V", "U:"+entriesDesc(tmp), "W", "S:"+hx([]byte(testdirectory.DefaultUserDN))+":"+hx([]byte("("+users[0].DN+")")))
+			if len(tmp) > 0 {
+				ops = append(ops, "S:"+hx([]byte(testdirectory.DefaultUserDN))+":"+hx([]byte("("+tmp[0].DN+")")))
+			}
+		}
 		kind := "clean"
 		if hostile {
 			kind = "hostile"
@@ -238,6 +247,7 @@ func (tdStoreStream) Impl(c Case) string {
 	d := testdirectory.VerifNewDirectory(&harnessT{}, &testdirectory.Defaults{Users: users, Groups: groups,
 		UserDN: string(unhx(strings.TrimPrefix(f[1], "userdn="))), GroupDN: string(unhx(strings.TrimPrefix(f[2], "groupdn=")))})
 	var outs []string
+	var savedUsers []*gldap.Entry
 	opsStr := strings.TrimPrefix(f[5], "ops=")
 	for i, op := range strings.Split(opsStr, ";") {
 		if op == "" {
@@ -286,6 +296,14 @@ func (tdStoreStream) Impl(c Case) string {
 				continue
 			}
 			frame = nd.Ser()
+		case "V":
+			savedUsers = d.Users()
+			outs = append(outs, "saved")
+			continue
+		case "W":
+			d.SetUsers(savedUsers...)
+			outs = append(outs, "set")
+			continue
 		case "U":
 			d.SetUsers(mk(parseTdEntries(p[1]))...)
 			outs = append(outs, "set")
@@ -340,6 +358,7 @@ func (tdStoreStream) Oracle(c Case, impl string) (bool, string, string) {
 	f := strings.Fields(c.Line)
 	ref := refStore{refEntries(parseTdEntries(strings.TrimPrefix(f[3], "users="))), refEntries(parseTdEntries(strings.TrimPrefix(f[4], "groups=")))}
 	outs := strings.Split(impl, " | ")
+	savedRef := map[string][]Att{}
 	ops := strings.Split(strings.TrimPrefix(f[5], "ops="), ";")
 	oi := 0
 	for _, op := range ops {
@@ -353,6 +372,16 @@ func (tdStoreStream) Oracle(c Case, impl string) (bool, string, string) {
 		oi++
 		p := strings.Split(op, ":")
 		switch p[0] {
+		case "V":
+			savedRef = map[string][]Att{}
+			for k, v := range ref.users {
+				savedRef[k] = v
+			}
+		case "W":
+			ref.users = map[string][]Att{}
+			for k, v := range savedRef {
+				ref.users[k] = v
+			}
 		case "U":
 			ref.users = refEntries(parseTdEntries(p[1]))
 		case "G":
